@@ -17,7 +17,7 @@ pub fn cases(mode: &'static str, recvs: &'static BTreeMap<&'static str, RecvDesc
     // fault-free run is clean (mistakes are welcome: faults next to mistakes are the point)
     let mut per_receiver: BTreeMap<String, usize> = BTreeMap::new();
     let mut i = 0u64;
-    while i < 6000 && per_receiver.values().filter(|n| **n >= 4).count() < gen::receiver_names(mode).len() + if mode == "map" { 0 } else { gen::ELEM_RECEIVERS.len() } {
+    while i < 20000 && per_receiver.values().filter(|n| **n >= 4).count() < { let mut names: std::collections::BTreeSet<&str> = gen::receiver_names(mode).into_iter().collect(); if mode != "map" { names.extend(gen::ELEM_RECEIVERS); names.extend(crate::gen_schema::ELEM_NAMES); } names.len() } {
         let mut sc = gen::generate(run_seed(0xC0FFEE, i), mode, recvs);
         i += 1;
         let n = per_receiver.entry(sc.receiver.clone()).or_insert(0);
